@@ -11,7 +11,11 @@ import (
 	"context"
 	"fmt"
 	"math/rand"
+	"path/filepath"
 	"strings"
+	"time"
+
+	"github.com/mithrandie/csvq/lib/file"
 
 	"github.com/mithrandie/csvq/lib/parser"
 	"github.com/mithrandie/csvq/lib/query"
@@ -58,11 +62,17 @@ func runC20(seed int64, tier string, out string) {
 			defer sc.Close()
 			init := map[int]initTab{0: c20Init(rnd, 0), 1: c20Init(rnd, 1)}
 			writeInit(sc.Dir, init)
-			a := newLibSess(sc.Dir, 1)
+			a := newLibSess(sc.Dir, 5)
 			b := newLibSess(sc.Dir, 0.03)
 			r := &recorder{s: a, w: w, nfiles: 2, ntemps: 0}
 			nSteps := 8 + rnd.Intn(17)
 			var sched []string
+			defer func() {
+				if e := recover(); e != nil {
+					meta.Direct = append(meta.Direct, DirectViolation{Key: "unexpected-failure", What: "the implementation failed where the harness needs it to work (B's COMMIT, reading a table back, ...): " + fmt.Sprint(e),
+						Case: map[string]interface{}{"schedule_so_far": strings.Join(sched, " "), "run": r.show}})
+				}
+			}()
 			nextID := 100
 			bSeq := 0
 			interesting := false
@@ -130,6 +140,15 @@ func runC20(seed int64, tier string, out string) {
 						sql = fmt.Sprintf("DELETE FROM %s WHERE c1 = %d", fileSQL(f), 1+rnd.Intn(3))
 					}
 					_, _, err := b.execOne(ctx, sql)
+					if err != nil && !file.Exists(file.LockFilePath(filepath.Join(sc.Dir, fileName(f)))) {
+						// no lock file of A: the short timeout expired for another reason (machine
+						// load) -- let B try again with a generous timeout
+						_ = b.proc.Rollback(nil)
+						b.tx.UpdateWaitTimeout(3, 5*time.Millisecond)
+						_, _, err = b.execOne(ctx, sql)
+						b.tx.UpdateWaitTimeout(0.03, 5*time.Millisecond)
+						meta.Distribution["B-retried-with-long-timeout"]++
+					}
 					if err != nil {
 						_ = b.proc.Rollback(nil)
 						if !strings.Contains(err.Error(), "lock") && !strings.Contains(err.Error(), "timeout") {
